@@ -44,7 +44,23 @@ _tuple_re = re.compile(r"^<<.*>>$")
 
 def parse_output(res, out):
     res.stdout = out
+    # TLC pretty-prints values longer than 80 characters over several lines: re-join tuples
+    joined, acc = [], None
     for line in out.splitlines():
+        st = line.strip()
+        if acc is not None:
+            acc += " " + st
+            if st.endswith(">>"):
+                joined.append(acc)
+                acc = None
+            continue
+        if st.startswith("<<") and not st.endswith(">>"):
+            acc = st
+            continue
+        joined.append(line)
+    if acc is not None:
+        joined.append(acc)
+    for line in joined:
         s = line.strip()
         if s.startswith('"') and s.endswith('"') and len(s) > 1:
             try:
@@ -137,7 +153,7 @@ def must(res, what):
 
 def parse_reject(t):
     """<<"REJECT", 12, "clause">> -> (12, "clause")"""
-    m = re.match(r'^<<"REJECT",\s*(-?\d+),\s*"([^"]*)"(?:,\s*(.*))?>>$', t)
+    m = re.match(r'^<<\s*"REJECT",\s*(-?\d+),\s*"([^"]*)"\s*(?:,\s*(.*?))?\s*>>$', t)
     if not m:
         return None
     return int(m.group(1)), m.group(2), m.group(3)
